@@ -79,7 +79,12 @@ class C01(runner.Prop):
             't': st.tuples(wrap_kinds, st.sampled_from([20, 200, 700, 985, 990]), gen.tree_descs(6, max_depth=4)).map(
                 lambda t: ['wrap', ','.join(t[0]), t[1], t[2]]),
             'cfg': gen.configs(predicates=['none', 'never', 'leaf_even', 'is_nt2'])})
-        return st.one_of(general, general, general, dicty, dicty, deep)
+        # stratum: custom nodes (incl. the optree dataclass) whose metadata is an identity-compared object - the
+        # rebuilt node must carry that very object
+        objmeta = st.fixed_dictionaries({
+            't': gen.tree_descs(ml, kinds=('dc', 'cn', 'cg', 'dict', 'list', 'tuple', 'od')).map(gen.with_object_metadata),
+            'cfg': gen.configs()})
+        return st.one_of(general, dicty, deep, objmeta)
 
     def check_case(self, case, ctx):
         cfg = gen.sound_cfg(case)
